@@ -56,8 +56,12 @@ type ReadOpt func(*ReadOptions) error
 // use AfterNanos instead.
 func After(start int64) ReadOpt {
 	return func(ro *ReadOptions) error {
-		if ro.End < start {
-			return fmt.Errorf("end cannot come before start")
+		// every timestamp comes after a negative one
+		if start < 0 {
+			start = 0
+		}
+		if err := AfterNanos(uint64(start))(ro); err != nil {
+			return err
 		}
 		ro.Start = start
 		return nil
@@ -70,8 +74,12 @@ func After(start int64) ReadOpt {
 // use BeforeNanos instead.
 func Before(end int64) ReadOpt {
 	return func(ro *ReadOptions) error {
-		if end < ro.Start {
-			return fmt.Errorf("end cannot come before start")
+		// no timestamp comes before a negative one
+		if end < 0 {
+			end = 0
+		}
+		if err := BeforeNanos(uint64(end))(ro); err != nil {
+			return err
 		}
 		ro.End = end
 		return nil
